@@ -408,3 +408,51 @@ fn h_lib_writer_refused() {
 // (H-W-SEQ dropped: an interleaving scenario with concrete names/ids and ONE symbolic piece size did
 //  not finish symbolic execution in 10 min — hashbrown insert/probe loops over Kani's SIMD model.
 //  Only operations on EMPTY hash tables are within reach (h_lib_writer_refused above).)
+
+// ------------------------------------------------------------------------------------------
+// H-FROM-NAME: file-start parsing with CONCRETE name length / truncation point (the symbolic
+// versions did not finish); the id is symbolic. Cheap, narrow: stated as such.
+// ------------------------------------------------------------------------------------------
+fn from_name_case(name_len: usize, present: usize) {
+    let id: u64 = kani::any();
+    let mut hdr = [0u8; 24];
+    hdr[0] = 0x00;
+    hdr[1..9].copy_from_slice(&id.to_le_bytes());
+    hdr[9..17].copy_from_slice(&(name_len as u64).to_le_bytes());
+    hdr[17] = b'a';
+    hdr[18] = b'b';
+    hdr[19] = b'c';
+    let mut src: &[u8] = &hdr[..17 + present];
+    let r = ArchiveFileBlock::from(&mut src);
+    match r {
+        Ok(ArchiveFileBlock::FileStart { filename, id: got }) => {
+            assert!(present >= name_len, "a file start whose name is cut short was accepted (with a shortened name)");
+            assert!(got == id && filename.len() == name_len, "id and name of the announced length");
+            core::mem::forget(filename);
+        }
+        Ok(_) => assert!(false, "file start parsed as another block"),
+        Err(e) => {
+            core::mem::forget(e);
+            assert!(present < name_len, "complete file start block rejected");
+        }
+    }
+}
+
+//@ props: C02 C08
+//@ functions: ArchiveFileBlock::from (FileStart arm: name read with read_exact)
+//@ bounds: CONCRETE cases only — name length 3 with 3, 2, 0 name bytes present; name length 1 with 0 present; empty name — ASCII name bytes, symbolic id (a symbolic truncation point crashed the back end, symbolic name lengths did not finish)
+//@ stubs: alloc::fmt::format; From<mla::Error> for io::Error
+//@ outside: every other name length and truncation point; non-ASCII names
+//@ replay: verif_replay_lib::lib_from_name
+#[kani::proof]
+#[kani::unwind(10)]
+#[kani::stub(alloc::fmt::format, nofmt)]
+#[kani::stub(<std::io::Error as std::convert::From<crate::errors::Error>>::from, cheap_from)]
+fn h_lib_from_name() {
+    from_name_case(3, 3);
+    from_name_case(3, 2);
+    from_name_case(3, 0);
+    from_name_case(1, 0);
+    from_name_case(0, 0);
+    kani::cover!(true, "all cases executed");
+}
